@@ -22,9 +22,13 @@ def main():
         if not os.path.exists(path) or pid in overrides:
             na.append({"property_id": pid, "reason": overrides.get(pid, NOT_BUILT)})
             continue
-        mod = importlib.import_module("pv.props." + pid.lower())
-        meta = getattr(mod, "META", None)
-        if not meta or not meta.get("claimed", True):
+        try:
+            mod = importlib.import_module("pv.props." + pid.lower())
+            meta = getattr(mod, "META", None)
+        except Exception as e:  # a module under construction never breaks the manifest
+            print("skip", pid, "import failed:", e)
+            meta = None
+        if not meta or not meta.get("claimed", False):
             na.append({"property_id": pid, "reason": (meta or {}).get("reason", NOT_BUILT)})
             continue
         checks.append({
